@@ -320,6 +320,24 @@ func init() {
 					ini[g] = true
 				}
 			}
+			aw, ar := map[string]bool{}, map[string]bool{}
+			for _, jr := range c.Results {
+				for g := range jr.GlobalAtomW {
+					aw[g] = true
+				}
+				for g := range jr.GlobalAtomR {
+					ar[g] = true
+				}
+			}
+			stat := map[string]bool{}
+			for g := range aw {
+				if ar[g] {
+					w[g] = true // updated and read back by Step: shared state
+				} else {
+					stat[g] = true
+				}
+			}
+			c.Extra["package_vars_updated_atomically_never_read_by_Step"] = sortedKeys(stat)
 			c.Extra["package_vars_initialised_once_with_constants"] = sortedKeys(ini)
 			c.Extra["package_vars_written_by_Step"] = sortedKeys(w)
 			c.Extra["package_vars_read_by_Step"] = sortedKeys(rd)
